@@ -146,6 +146,7 @@ def _tools():
     T["merge"] = (3, 3, lambda S, n: A.merge(*S), "iter", {})
     T["merge_key_reverse"] = (2, 2, lambda S, n: A.merge(*S, key=lambda x: -x.key, reverse=True), "iter", {})
     T["groupby"] = (1, 1, None, "groupby", {})
+    T["groupby_failing_key"] = (1, 1, None, "groupby_failing_key", {})
     T["iter_sentinel"] = (1, 0, None, "iter_sentinel", {})
     T["all"] = (1, 0, lambda S, n: A.all(S[0]), "agg", {})
     T["any"] = (1, 0, lambda S, n: A.any(S[0]), "agg", {"falsy": True})
@@ -197,6 +198,41 @@ def run_tool(case, stats):
         elif kind == "groupby":
             async for key, group in A.groupby(streams[0], key=lambda x: x.key // 7):
                 async for item in group:
+                    produced["n"] += 1
+                    del item
+                    census.sample("after group item")
+                del group
+        elif kind == "groupby_failing_key":
+            # a key that fails for every 10th item; the consumer catches the error and carries on
+            # (groupby is class based and survives it) - whatever happens to those items, they must not pile up
+            state = {"failed": set()}
+
+            def key(x):
+                if x.key % 10 == 9 and x.key not in state["failed"]:
+                    state["failed"].add(x.key)
+                    raise LookupError(x.key)
+                return x.key // 7
+
+            gb = A.groupby(streams[0], key=key)
+            budget = 6 * n
+            while budget:
+                budget -= 1
+                try:
+                    _, group = await gb.__anext__()
+                except StopAsyncIteration:
+                    break
+                except LookupError:
+                    census.sample("after a failed key (groupby)")
+                    continue
+                while budget:
+                    budget -= 1
+                    try:
+                        item = await group.__anext__()
+                    except StopAsyncIteration:
+                        break
+                    except LookupError:
+                        census.sample("after a failed key (group)")
+                        continue
                     produced["n"] += 1
                     del item
                     census.sample("after group item")
